@@ -385,3 +385,96 @@ func sortStrings(xs []string) {
 		}
 	}
 }
+
+// ------------------------------------------------------------------ OU20
+
+func init() {
+	register(&Rule{ID: "OU20", Min: 1, Run: ruleOU20,
+		Doc: "quiet-selects-output-not-outcome: --quiet suppresses summaries and hints; it never decides how a command ends. In the command functions (Run* and their private helpers that return an error) no successful return is reachable only across the true edge of a test of the Quiet option: a shortcut taken `because nothing more will be printed anyway` skips whatever the rest of the path does for every mode - the documented empty-state sentence of a view without rows, the one JSON value owed under --json"})
+}
+
+func ruleOU20(c *Ctx) {
+	sentences := map[string]bool{}
+	if ss, err := c.documentedSentences(); err == nil {
+		for _, s := range ss {
+			sentences[s] = true
+		}
+	}
+	wj := c.ErgoFn("writeJSON")
+	n := 0
+	for _, f := range c.Fns {
+		if !c.InModule(f) || f.Blocks == nil || Outermost(f).Pkg != c.Ergo {
+			continue
+		}
+		res := f.Signature.Results()
+		if res.Len() == 0 || res.At(res.Len()-1).Type().String() != "error" {
+			continue
+		}
+		quiet := edgesWhere(f, func(a Atom, holds bool) bool {
+			if a.Kind != "bool" || !holds {
+				return false
+			}
+			// the option itself, or a copy kept in a printer/settings struct (p.quiet)
+			_, nme, ok := fieldLoad(resolveEnv(a.X, a.Env))
+			return ok && (nme == "Quiet" || nme == "quiet")
+		})
+		if len(quiet) == 0 {
+			continue
+		}
+		n++
+		bad := ""
+		for e := range quiet {
+			// a successful return taken only across this edge ...
+			var dominated []*ssa.Return
+			for _, r := range successReturns(f) {
+				if r.Block().Comment != "recover" && mustPassEdges(f, r.Block(), map[edge]bool{e: true}) {
+					dominated = append(dominated, r)
+				}
+			}
+			// ... is fine when all it skips is text that --quiet is there to suppress: what can follow the test but cannot
+			// lead to that return must contain no JSON reply, no documented empty-state sentence and no change of the store
+			for _, dr := range dominated {
+				leadsToR := map[*ssa.BasicBlock]bool{}
+				for _, b := range f.Blocks {
+					if reach(b, nil, nil)[dr.Block()] {
+						leadsToR[b] = true
+					}
+				}
+				for blk := range reach(e.From, nil, nil) {
+					if leadsToR[blk] {
+						continue
+					}
+					for _, in := range blk.Instrs {
+						call, ok := in.(ssa.CallInstruction)
+						if !ok {
+							continue
+						}
+						if cal := calleeOf(call.Common()); cal != nil && wj != nil && cal == wj {
+							bad = "the JSON reply written at " + c.Pos(call.Pos())
+						}
+						for _, s := range stringConstsIn(call) {
+							if sentences[s] {
+								bad = fmt.Sprintf("the documented sentence %q printed at %s", s, c.Pos(call.Pos()))
+							}
+						}
+						if ef := c.F.byCall[call]; ef != nil && commitEffectClass(ef.Class) {
+							bad = "the store operation at " + c.Pos(call.Pos())
+						}
+						if cal := calleeOf(call.Common()); cal != nil && c.InModule(cal) {
+							for g := range c.F.TransitiveCallees(cal) {
+								if c.F.isLockFn(g) {
+									bad = "the locked step reached through " + c.Name(cal) + " at " + c.Pos(call.Pos())
+								}
+							}
+						}
+					}
+				}
+			}
+		}
+		c.check(bad == "", c.Name(f), "quiet-ends-nothing", c.FnPos(f), "a return taken under --quiet skips nothing but suppressible text",
+			"a successful return is taken only when --quiet is set, and it skips "+bad+": the flag that suppresses summaries and hints decides what the command does, not just what it prints")
+	}
+	if n == 0 {
+		c.unk("<module>", "quiet-tests", "-", "no test of GlobalOptions.Quiet found in a command function")
+	}
+}
